@@ -5,6 +5,7 @@ package props
 import (
 	"fmt"
 	"reflect"
+	"runtime"
 	"sort"
 	"sync"
 	"testing"
@@ -40,6 +41,9 @@ type C08Case struct {
 	// ever writes: 1 "optimize":true, 2 "optimize":false, 3 an unknown key, 4 both (the engine
 	// ignores them; they are the caller's all the same)
 	ExtraOpts int `json:"extra_opts,omitempty"`
+	// Procs: GOMAXPROCS during the concurrent phase (0: the machine's); with one processor the
+	// compilations interleave only where the stateless custom operators (called while folding) yield
+	Procs int `json:"procs,omitempty"`
 }
 
 var malformedDirectives = []string{";;;; bogus\n", ";;;; reordering:maybe\n", ";;;; a:b:c\n", ";;;; debug:true\n", ";;;;\n", ";;;; optimize\n"}
@@ -117,6 +121,7 @@ func genC08(t *rapid.T) C08Case {
 	for g := 0; g < ng; g++ {
 		c.Parallel = append(c.Parallel, rapid.SliceOfN(rapid.IntRange(0, ns-1), 2, 8).Draw(t, "work"))
 	}
+	c.Procs = []int{0, 1, 2, 4}[pickW(t, "procs", 3, 1, 1, 1)]
 	return c
 }
 
@@ -460,6 +465,9 @@ func checkC08(c C08Case, r *Rec) *Violation {
 				}
 			}
 		}(gi, work)
+	}
+	if c.Procs > 0 {
+		defer runtime.GOMAXPROCS(runtime.GOMAXPROCS(c.Procs))
 	}
 	close(start)
 	wg.Wait()
